@@ -60,6 +60,12 @@ TRUSTED = [
     "each one atomic step; `with image_lock(...)` is translated in place (the lock protocol is the other half of the "
     "model); os.makedirs and logging calls are dropped (directories are not modelled); calls between the functions "
     "(TransferOps.compare_local / compare_link / upload_local) go to the generated counterparts",
+    "GenTransfer.lean also holds genDownload / genUpload / genDelete, regenerated from the dispatchers TransferOps.download "
+    "/ upload / delete (`hosts, path = pool_path.split(':')` with ValueError for another number of parts, host part -> "
+    "remote, ';' in the path -> link mode with the ';' removed, else local mode); download_matches_source, "
+    "upload_matches_source, delete_matches_source prove the model's dispatchers equal to them for all location strings. "
+    "Trusted in addition: pool_path.split(':') = the model's splitColon on the characters; the *_remote functions are "
+    "the error notModelled; `in` / replace on strings are I2N.Rules.isSubstr / the prelude's pyRemoveChar",
 ]
 
 
@@ -72,7 +78,7 @@ def extract(ctx):
         ctx.notes.append("I2N/Extracted/GenTransfer.lean changed: the source of the TransferOps functions differs from "
                          "the one the committed file was generated from (the *_matches_source theorems are re-checked)")
     ctx.extra["regenerated"] = ("lean/I2N/Extracted/GenTransfer.lean (TransferOps.compare_local/compare_link/"
-                                "download_local/upload_local/delete_local/download_link/upload_link via harness/pygen.py)")
+                                "download_local/upload_local/delete_local/download_link/upload_link/download/upload/delete via harness/pygen.py)")
 
 
 SYMS = "abcdefghijklmnopqrstuvwxyzABCDEFGHIJKLMNOPQRSTUVWXYZ0123456789"
